@@ -78,6 +78,13 @@ func short(b []byte) string {
 	return fmt.Sprintf("%q", b)
 }
 
+// heldValue: a value returned by Get, kept by the caller together with a copy
+type heldValue struct {
+	key, when string
+	live      []byte
+	clone     string
+}
+
 type seqDriver struct {
 	c         core.Case
 	prop      string
@@ -90,6 +97,7 @@ type seqDriver struct {
 	keys      []string
 	trace     []string
 	reads     int
+	held      []heldValue
 	nopen     int
 	scribbled int
 	ntxn      int
@@ -167,6 +175,13 @@ func (d *seqDriver) readKeys(ks []string, when string) bool {
 					bad = cls
 					d.fail("read/"+cls, "%s: Get(%q) = %s, model (latest committed write) = %s; committed history of the key: %v", when, k, gd, wd, tailStr(d.m.hist[k], 8))
 					return nil
+				}
+				// some returned values are kept: what Get handed out must not change later
+				if ok && len(got) > 0 && len(got) <= 4096 && d.reads%37 == 0 {
+					if len(d.held) >= 48 {
+						d.held = d.held[1:]
+					}
+					d.held = append(d.held, heldValue{key: k, when: when, live: got, clone: string(got)})
 				}
 			}
 			return nil
@@ -541,6 +556,15 @@ func finishSeq(d *seqDriver, res *core.Result, before map[string]int64, reopens,
 		if strings.HasPrefix(k, "compact.L") {
 			compactions += v
 		}
+	}
+	if res.Verdict == "" {
+		for _, h := range d.held {
+			if string(h.live) != h.clone {
+				d.fail("returned-value-changed", "the value Get(%q) returned (%s) was %s and has become %s after later commits, reads, flushes and compactions", h.key, h.when, short([]byte(h.clone)), short(h.live))
+				break
+			}
+		}
+		res.AddObs("returned_values_rechecked_at_the_end", int64(len(d.held)))
 	}
 	res.AddObs("txns", int64(d.ntxn))
 	res.AddObs("reads", int64(d.reads))
